@@ -77,6 +77,13 @@ def run(case):
                 log.append(['q', ['comps', e, [lid.get(id(c), -99)
                                                for c in world.get_components(entity)]]])
             log.append(['q', ['ish', me._lid, bool(world.is_handler(me))]])
+            t = case['cls'][me._lid - 1]
+            if e != -99:
+                log.append(['q', ['has', e, t, bool(world.has_component(entity, classes[t]))]])
+                c = world.get_component(entity, classes[t])
+                log.append(['q', ['getc', e, t, None if c is None else lid.get(id(c), -99)]])
+            log.append(['q', ['get', t, [[ent_z(x), lid.get(id(c), -99)]
+                                         for x, c in world.get(classes[t])]]])
 
     def callback(kind, script):
         def cb(self, entity, w):
@@ -143,7 +150,24 @@ def run(case):
             qs.append(['comps', e])
         for i in range(1, len(insts)):
             qs.append(['ish', i])
+        for t in range(1, len(classes)):
+            qs.append(['get', t])
+            for e in known_ids:
+                qs.append(['has', e, t])
+                qs.append(['getc', e, t])
         return qs
+
+    def focus_queries(o):
+        # the component queries about the entity the operation names
+        if o[0] in ('create', 'add', 'remove', 'delete') and o[1] is not None:
+            ts = list(range(1, len(classes)))
+            rng.shuffle(ts)
+            out = [['exists', o[1]]]
+            for t in ts[:2]:
+                out += [['has', o[1], t], ['getc', o[1], t]]
+            out.append(['get', ts[0]])
+            return out
+        return []
 
     def ask(q):
         if q[0] == 'entities':
@@ -153,6 +177,14 @@ def run(case):
         if q[0] == 'comps':
             return ['comps', q[1], [lid.get(id(c), -99)
                                     for c in world.get_components(ent_py(q[1]))]]
+        if q[0] == 'has':
+            return ['has', q[1], q[2], bool(world.has_component(ent_py(q[1]), classes[q[2]]))]
+        if q[0] == 'getc':
+            c = world.get_component(ent_py(q[1]), classes[q[2]])
+            return ['getc', q[1], q[2], None if c is None else lid.get(id(c), -99)]
+        if q[0] == 'get':
+            return ['get', q[1], [[ent_z(e), lid.get(id(c), -99)]
+                                  for e, c in world.get(classes[q[1]])]]
         o = insts[q[1]]
         return ['ish', q[1], hasattr(o, '__events__') and bool(world.is_handler(o))]
 
@@ -185,7 +217,7 @@ def run(case):
         del log[:]
         qs = all_queries()
         if k < nops - 1 and len(qs) > 6:
-            qs = rng.sample(qs, 6)
+            qs = rng.sample(qs, 6) + focus_queries(o)
         answers = []
         for q in qs:
             try:
